@@ -1,11 +1,15 @@
 (* Properties_C01.v -- C01: the LHA static-Huffman methods decode every valid
    stream exactly.  The specification (LZ77 semantics, canonical codes, stream
    descriptions with all table forms, serialiser, wf predicate) is S_LhNew.v.
-   What is proved so far are the facts the round trip rests on; the round trip
-   itself ([lhnew_roundtrip], stated below as a comment) is decided by the
-   direct oracle of the check (C output = extracted spec expansion on streams
-   produced by the extracted serialiser) until its proof is complete. *)
-From Lhasa Require Import Base ListN DecBase BitReader Tree S_Larc S_LhNew P_S_LhNew P_BitReader P_Tree.
+   The round trip is proved in full for all six decoders (lhnew_roundtrip and its
+   instances; proof in P_LhNewRt.v): every well-formed stream description -- any
+   number of blocks, temp/code/offset tables in every form (single-code, explicit
+   lengths with the skip field, the three zero-run classes, clamped last runs),
+   every length/distance class incl. LHARK's --, any trailing bytes, any read
+   schedule covering the output decodes to exactly what its commands denote.
+   The size bound (input below 2^27 bytes) is the model's loop fuel. *)
+From Lhasa Require Import Base ListN DecBase BitReader Tree Generated LhNew Decoder S_Larc S_LhNew P_S_LhNew P_BitReader P_Tree
+  P_Decoder P_LhNew P_LhNewRt.
 Local Open Scope N_scope.
 
 (* The fast expansion used by the checks is the reference LZ77 semantics
@@ -26,11 +30,55 @@ Theorem read_bits_refines_bitstring : forall r s n v rest,
                 bsr_wf r' /\ src_ok s' /\ pending r' s' = rest.
 Proof. exact read_bits_src_prefix. Qed.
 
-(* Full statement (not yet proved; checked on every run by the direct oracle):
-   lhnew_roundtrip : forall v sd pad ks, wf_stream v sd = true ->
-     let out := lz77_expand (denote sd) in nlen out <= sum_N ks ->
-     concat (outputs (run_reads (lhnew decoder of v) (bytes (serialise_stream v sd) ++ pad) (nlen out)) ks) = out. *)
+(* The round trip, for any decoder parameters that instantiate a stream variant
+   (variant_params ties window size, table sizes, thresholds and the LHARK flag of
+   the regenerated C constants to the specification's variant) *)
+Theorem lhnew_roundtrip : forall (v : variant) (P : lhnew_params) block_size sd tail s0 ks,
+  variant_params v P ->
+  wf_stream v sd = true -> Forall (fun b => b < 256) tail -> lhnew_init P = Ok s0 ->
+  let out := lz77_expand (denote sd) in
+  nlen out <= sum_N ks -> sum_N ks < 2 ^ 62 ->
+  8 * nlen (serialise_bytes v sd ++ tail) < 2 ^ 30 ->
+  exists os d',
+    run_reads (lhnew_read src_cb P) (p_max_read P) block_size
+      (lha_decoder_new s0 {| src_data := serialise_bytes v sd ++ tail; src_chunks := [] |} (nlen out)) ks
+      = Ok (os, d') /\
+    concat os = out.
+Proof. exact lhnew_roundtrip_total. Qed.
+
+(* the six decoders of the C's table instantiate the six variants *)
+Theorem all_variants_instantiated :
+  variant_params v_lh4 lh4_params /\ variant_params v_lh5 lh5_params /\ variant_params v_lh6 lh6_params /\
+  variant_params v_lh7 lh7_params /\ variant_params v_lhx lhx_params /\ variant_params v_lk7 lk7_params.
+Proof.
+  split; [exact variant_params_lh4|]. split; [exact variant_params_lh5|]. split; [exact variant_params_lh6|].
+  split; [exact variant_params_lh7|]. split; [exact variant_params_lhx|exact variant_params_lk7].
+Qed.
+
+Theorem lh5_roundtrip : forall sd tail s0 ks os d',
+  wf_stream v_lh5 sd = true -> Forall (fun b => b < 256) tail -> lh5_init = Ok s0 ->
+  let out := lz77_expand (denote sd) in
+  nlen out <= sum_N ks -> sum_N ks < 2 ^ 62 -> 8 * nlen (serialise_bytes v_lh5 sd ++ tail) < 2 ^ 30 ->
+  run_reads (lh5_read src_cb) lh5_max_read lh5_block_size
+    (lha_decoder_new s0 {| src_data := serialise_bytes v_lh5 sd ++ tail; src_chunks := [] |} (nlen out)) ks
+    = Ok (os, d') ->
+  concat os = out.
+Proof. exact P_LhNewRt.lh5_roundtrip. Qed.
+
+Theorem lk7_roundtrip : forall sd tail s0 ks os d',
+  wf_stream v_lk7 sd = true -> Forall (fun b => b < 256) tail -> lk7_init = Ok s0 ->
+  let out := lz77_expand (denote sd) in
+  nlen out <= sum_N ks -> sum_N ks < 2 ^ 62 -> 8 * nlen (serialise_bytes v_lk7 sd ++ tail) < 2 ^ 30 ->
+  run_reads (lk7_read src_cb) lk7_max_read lk7_block_size
+    (lha_decoder_new s0 {| src_data := serialise_bytes v_lk7 sd ++ tail; src_chunks := [] |} (nlen out)) ks
+    = Ok (os, d') ->
+  concat os = out.
+Proof. exact P_LhNewRt.lk7_roundtrip. Qed.
 
 Print Assumptions lz77_expand_is_reference.
 Print Assumptions serialise_is_blockwise.
 Print Assumptions read_bits_refines_bitstring.
+Print Assumptions lhnew_roundtrip.
+Print Assumptions all_variants_instantiated.
+Print Assumptions lh5_roundtrip.
+Print Assumptions lk7_roundtrip.
